@@ -6,6 +6,7 @@ jobdir/job.json : {program, base, settings, result, W, mode}
   mode 'lockrace'    the two work packages of a 2-iteration run are executed in two forked processes whose lock
                      steps are delayed so that both pass pylocker's check before either writes (nothing else changed)
   mode 'locktimeout' the single work package of a 1-iteration run finds the lock held by a live foreign locker
+  mode 'stalelock'   the real pool (as 'pool'), but an earlier process died while holding <result dir>/.lock
 Observation only: work_package, Locker and the np.random functions are wrapped by recording pass-throughs.
 jobdir/out.json : {main_error, tasks: [{pid, seq, t0, t1, status, trace, lock}]}"""
 import json
@@ -156,7 +157,17 @@ class TwoProcessExecutor:
             holder.release_lock()
 
 
-if job['mode'] == 'pool':
+def _die_holding_the_lock():
+    lk = pylocker.Locker(filePath=job['result'], lockPass='verif-killed-earlier-run', timeout=10, mode='a')
+    acquired, _ = lk.acquire_lock()
+    os._exit(0 if acquired else 3)      # no clean-up: the lock file stays, owned by a process that no longer exists
+
+
+if job['mode'] == 'stalelock':
+    _p = mp.Process(target=_die_holding_the_lock)
+    _p.start()
+    _p.join(60)
+if job['mode'] in ('pool', 'stalelock'):
     os.cpu_count = lambda: int(job['W'])
     if hasattr(os, 'process_cpu_count'):
         os.process_cpu_count = os.cpu_count
